@@ -18,7 +18,12 @@
  *   rchunk=<seed>:<max>      every script read delivers <= 1+prng%max bytes
  *   hint=<n>                 size reported by statx/fstat for the script
  *   ftype=<fifo|chr>         file type reported by stat/statx/fstat for the script (size 0),
- *                            lseek on it fails with ESPIPE: the script arrives through a pipe
+ *                            lseek on it fails with ESPIPE, and the stream position is shared by
+ *                            all opens: the script arrives through a pipe
+ *   nb=late | nb=slow:<n>    only with ftype=fifo and only if the program made the script descriptor
+ *                            non-blocking (O_NONBLOCK at open or F_SETFL): 'late' = no writer yet, every
+ *                            read returns 0; 'slow:<n>' = the writer pauses, the n-th read fails with
+ *                            EAGAIN once.  A blocking descriptor just waits, i.e. sees nothing of this.
  *   eof=<k>                  script content is cut after k bytes
  *   flip=<off>:<hex>         stored byte at <off> is replaced by <hex> bytes
  *   w=<fd>:<n>:<act>         rule for the n-th write call on fd (0-based)
@@ -108,12 +113,17 @@ static unsigned long long g_rchunk_state = 0; static long g_rchunk_max = 0;
 
 static long g_hint = -1, g_eof = -1;
 static int g_ftype = 0; /* 0 regular, 1 fifo, 2 character device */
+static int g_nb_mode = 0; /* 0 none, 1 late writer, 2 slow writer */
+static long g_nb_n = 0;
+static int g_nb_done = 0;
+static unsigned char g_nonblock[MAX_FDS];
 static long g_flip_off = -1; static unsigned char g_flip_bytes[16]; static int g_flip_len = 0;
 static int g_virtual = 0; /* serve script reads from a private buffer */
 
 static unsigned char g_is_script[MAX_FDS];
 static unsigned char *g_vbuf = NULL; static long g_vlen = 0;
 static long g_vpos[MAX_FDS];
+static long g_stream_pos = 0;
 
 static long g_clock = -1; static long g_clock_calls = 0; static long g_clock_step_ms = 1;
 static long g_pid = -1;
@@ -209,6 +219,8 @@ static void plan_init(void) {
             g_rchunk_max = parse_long(&p); if (g_rchunk_max >= 1) g_virtual = 1;
         }
         else if (starts(p, "hint=")) { p += 5; g_hint = parse_long(&p); }
+        else if (starts(p, "nb=late")) { p += 7; g_nb_mode = 1; }
+        else if (starts(p, "nb=slow:")) { p += 8; g_nb_mode = 2; g_nb_n = parse_long(&p); }
         else if (starts(p, "ftype=fifo")) { p += 10; g_ftype = 1; }
         else if (starts(p, "ftype=chr")) { p += 9; g_ftype = 2; }
         else if (starts(p, "eof=")) { p += 4; g_eof = parse_long(&p); g_virtual = 1; }
@@ -467,7 +479,11 @@ static int do_open(int dirfd, const char *path, int flags, mode_t mode) {
     int e = fd < 0 ? errno : 0;
     if (script) {
         if (fd >= 0 && fd < MAX_FDS) {
-            g_is_script[fd] = 1; g_vpos[fd] = 0;
+            g_is_script[fd] = 1;
+            /* a pipe has one stream position however often it is opened: bytes read through
+               one descriptor are gone for the next */
+            g_vpos[fd] = g_ftype ? g_stream_pos : 0;
+            g_nonblock[fd] = (flags & O_NONBLOCK) ? 1 : 0;
             if (g_virtual) load_virtual((int)fd);
         }
         log_event('O', (int)fd, 0, fd, e, "-", NULL, 0);
@@ -499,6 +515,17 @@ int openat64(int dirfd, const char *path, int flags, ...) {
     return do_open(dirfd, path, flags, mode);
 }
 
+/* --------------------------------------------------------------- fcntl */
+
+static int do_fcntl(int fd, int cmd, long arg) {
+    plan_init();
+    long r = syscall(SYS_fcntl, fd, cmd, arg);
+    if (r >= 0 && cmd == F_SETFL && fd >= 0 && fd < MAX_FDS && g_is_script[fd]) g_nonblock[fd] = (arg & O_NONBLOCK) ? 1 : 0;
+    return (int)r;
+}
+int fcntl(int fd, int cmd, ...) { va_list ap; va_start(ap, cmd); long arg = va_arg(ap, long); va_end(ap); return do_fcntl(fd, cmd, arg); }
+int fcntl64(int fd, int cmd, ...) { va_list ap; va_start(ap, cmd); long arg = va_arg(ap, long); va_end(ap); return do_fcntl(fd, cmd, arg); }
+
 /* ---------------------------------------------------------------- read */
 
 static ssize_t do_read(int fd, void *buf, size_t count) {
@@ -512,6 +539,17 @@ static ssize_t do_read(int fd, void *buf, size_t count) {
     long idx = g_rcount++;
     struct rule *r = find_rule(g_r, g_nr, 0, idx, 0);
     const char *act = "-";
+    if (g_ftype == 1 && g_nonblock[fd] && g_nb_mode == 1) {
+        /* non-blocking read end of a FIFO that has no writer yet: end of file */
+        log_event('R', fd, (long)count, 0, 0, "nbeof", NULL, 0);
+        return 0;
+    }
+    if (g_ftype == 1 && g_nonblock[fd] && g_nb_mode == 2 && !g_nb_done && idx >= g_nb_n) {
+        g_nb_done = 1;
+        errno = EAGAIN;
+        log_event('R', fd, (long)count, -1, EAGAIN, "nbagain", NULL, 0);
+        return -1;
+    }
     if (g_rpersist) {
         errno = g_rpersist;
         log_event('R', fd, (long)count, -1, errno, "perr", NULL, 0);
@@ -567,6 +605,7 @@ static ssize_t do_read(int fd, void *buf, size_t count) {
     if ((long)allow > avail) allow = (size_t)avail;
     memcpy(buf, g_vbuf + g_vpos[fd], allow);
     g_vpos[fd] += (long)allow;
+    if (g_ftype && g_vpos[fd] > g_stream_pos) g_stream_pos = g_vpos[fd];
     log_event('R', fd, (long)count, (long)allow, 0, act, NULL, 0);
     return (ssize_t)allow;
 }
